@@ -576,6 +576,29 @@ func (ts *TermStore) Div(a, m *Term) *Term {
 				return ts.Mul(ts.Int(q), a.args[1])
 			}
 		}
+		// (sum of multiples of m + small rest) div m  =  (sum of multiples)/m   when 0 <= rest < m
+		if a.op == "+" {
+			var mult, rest []*Term
+			for _, x := range a.args {
+				switch {
+				case x.op == "*" && x.args[0].IsConst() && new(big.Int).Mod(x.args[0].ival, m.ival).Sign() == 0:
+					mult = append(mult, ts.Mul(ts.Int(new(big.Int).Quo(x.args[0].ival, m.ival)), x.args[1]))
+				case x.IsConst() && new(big.Int).Mod(x.ival, m.ival).Sign() == 0:
+					mult = append(mult, ts.Int(new(big.Int).Quo(x.ival, m.ival)))
+				default:
+					rest = append(rest, x)
+				}
+			}
+			if len(mult) > 0 {
+				if len(rest) == 0 {
+					return ts.Add(mult...)
+				}
+				r := ts.Add(rest...)
+				if r.lo != nil && r.hi != nil && r.lo.Sign() >= 0 && r.hi.Cmp(m.ival) < 0 {
+					return ts.Add(mult...)
+				}
+			}
+		}
 		// (x div a) div b = x div (a*b)
 		if a.op == "div" && a.args[1].IsConst() && a.args[1].ival.Sign() > 0 {
 			return ts.Div(a.args[0], ts.Int(new(big.Int).Mul(a.args[1].ival, m.ival)))
